@@ -811,7 +811,14 @@ Plan gen_base(const std::string &profile, uint64_t seed, const JV &opts) {
 			else if (y < 0.70) { o = g.mk("drain", c); o.a.set("n", JV::num((double)(1 + r.below(400)))); }
 			else { o = g.mk("acceptfail"); static const int er[] = {103, 24, 23, 105, 12, 71, 4, 104}; o.a.set("errno", JV::num(er[r.below(8)])); o.a.set("tr", JV::str(r.chance(0.6) ? "raw" : r.chance(0.5) ? "ws" : "uds")); }
 			o.dt = g.pick_dt(); o.hold = false;
+			// a connection attempt that arrives while the shortage lasts: it stays in the accept queue behind the failure and must be served once the shortage is over
+			bool queued_behind = o.k == "acceptfail" && o.a.gets("tr") == "raw" && (o.a.geti("errno") == 24 || o.a.geti("errno") == 23 || o.a.geti("errno") == 105 || o.a.geti("errno") == 12) && (int)g.cl.size() < g.max_clients + 2 && r.chance(0.5);
+			if (queued_behind) o.hold = true;
 			g.p.ops.push_back(o);
+			if (queued_behind) {
+				g.op_connect(true); Op &co = g.p.ops.back(); co.a.put("ip", JV::str("127.0.0.1")); co.dt = 0; co.hold = false;
+				g.emit(g.cl.back().c, "info", JV::obj());
+			}
 		}
 		else if ((profile == "c05" || profile == "c07" || profile == "c14" || profile == "base") && x >= 0.245 && x < 0.255) {
 			Op o = g.mk("spurious", -1); double y = r.unit();
@@ -1876,6 +1883,7 @@ Plan generate_plan(const std::string &profile_in, uint64_t seed, const JV &opts)
 	}
 	// a sanitizer report or crash is attributed to the property whose check is running, unless the profile says otherwise
 	if (opts.has("memprop") && !p.hdr.has("memprop")) p.hdr.set("memprop", JV::str(opts.gets("memprop")));
+	if (opts.has("quiet_rules") && !p.hdr.has("quiet_rules")) p.hdr.set("quiet_rules", *opts.get("quiet_rules"));
 	return p;
 }
 static Plan generate_plan_inner(const std::string &profile, uint64_t seed, const JV &opts) {
